@@ -1298,6 +1298,8 @@ fn script_liquidity_ceiling(h: &mut Hist, r: &mut Rng) {
         outputs: vec![
             crate::txgen::out(a0, big, Denom::Mel), crate::txgen::out(a0, x.max(y), Denom::Mel), crate::txgen::out(a0, 1, Denom::Mel),
             crate::txgen::out(a0, big, Denom::NewCustom), crate::txgen::out(a0, x.max(y), Denom::NewCustom), crate::txgen::out(a0, 1, Denom::NewCustom),
+            // every transaction needs a MEL input (the fee is an output of MEL, even when it is 0): one coin per withdrawal
+            crate::txgen::out(a0, 2, Denom::Mel), crate::txgen::out(a0, 2, Denom::Mel),
         ],
         fee: CoinValue(0),
         covenants: vec![],
@@ -1350,11 +1352,11 @@ fn script_liquidity_ceiling(h: &mut Hist, r: &mut Rng) {
     let cm = CoinMapping::new(h.parts(&u6).coins.clone());
     let liq = key.liq_token_denom();
     let mut wds = vec![];
-    for (d, feeidx) in [(&d1, base(Denom::Mel) + 2), (&d2, 99u8)] {
+    for (d, feeidx) in [(&d1, 6u8), (&d2, 7u8)] {
         if let Some(c) = cm.get_coin(d.output_coinid(0)) {
-            if c.coin_data.denom == liq && feeidx != 99 {
-                let ins = vec![WCoin { id: d.output_coinid(0), cdh: c.clone(), spec: CovSpec::StdNew(0) }];
-                let wd = assemble(&h.wallet, TxKind::LiqWithdraw, &ins, vec![crate::txgen::out(a0, c.coin_data.value.0, liq)], 0, key.to_bytes().to_vec());
+            if c.coin_data.denom == liq {
+                let ins = vec![coin(feeidx, Denom::Mel, 2), WCoin { id: d.output_coinid(0), cdh: c.clone(), spec: CovSpec::StdNew(0) }];
+                let wd = assemble(&h.wallet, TxKind::LiqWithdraw, &ins, vec![crate::txgen::out(a0, c.coin_data.value.0, liq)], 2, key.to_bytes().to_vec());
                 h.w.names.reg_tx(&wd);
                 wds.push(wd);
             }
@@ -1366,6 +1368,113 @@ fn script_liquidity_ceiling(h: &mut Hist, r: &mut Rng) {
         }
     }
     h.bump("history:liquidity-ceiling-script");
+}
+
+/// A scripted history with *dust* withdrawals: a pool is opened, a large swap makes it lopsided (one reserve far above,
+/// the other far below the recorded liquidity), the depositor splits the liquidity tokens into coins of 1, 1, 2 and the
+/// rest, and redeems them — the dust first (two in one batch), the rest a block later.  The share of the thin side of a
+/// dust redemption rounds down to zero: the request's coins are still rewritten (to zero-valued coins of the pool's
+/// sides) and the record of issued liquidity goes down by exactly what was redeemed.
+fn script_dust_withdrawal(h: &mut Hist, r: &mut Rng) {
+    let a0 = h.wallet.spec_addr(CovSpec::StdNew(0));
+    let network = *r.pick(&[NetID::Custom02, NetID::Custom02, NetID::Custom03, NetID::Testnet]);
+    let cfg = GenesisConfig {
+        network,
+        init_coindata: crate::txgen::out(a0, 1u128 << 60, Denom::Mel),
+        stakes: BTreeMap::new(),
+        init_fee_pool: CoinValue(0),
+        init_fee_multiplier: 0,
+    };
+    let mut u = h.op_genesis(cfg);
+    let base: u128 = *r.pick(&[1000u128, 1000, 77, 1 << 20]);
+    let swap_in: u128 = base * (50 + r.below(200) as u128);
+    // a faucet mints both sides: [base, swap_in] of MEL and of a new token
+    let f = Transaction {
+        kind: TxKind::Faucet,
+        inputs: vec![],
+        outputs: vec![
+            crate::txgen::out(a0, base, Denom::Mel), crate::txgen::out(a0, swap_in, Denom::Mel),
+            crate::txgen::out(a0, base, Denom::NewCustom), crate::txgen::out(a0, swap_in, Denom::NewCustom),
+            // every transaction needs a MEL input (the fee is an output of MEL, even when it is 0): six coins of 3
+            crate::txgen::out(a0, 3, Denom::Mel), crate::txgen::out(a0, 3, Denom::Mel), crate::txgen::out(a0, 3, Denom::Mel),
+            crate::txgen::out(a0, 3, Denom::Mel), crate::txgen::out(a0, 3, Denom::Mel), crate::txgen::out(a0, 3, Denom::Mel),
+        ],
+        fee: CoinValue(0),
+        covenants: vec![],
+        data: r.bytes(6).into(),
+        sigs: vec![],
+    };
+    h.w.names.reg_tx(&f);
+    let Some(u1) = h.op_batch(&u, &[f.clone()], "dust:faucet") else { return };
+    u = u1;
+    let tok = Denom::Custom(f.hash_nosigs());
+    let key = PoolKey::new(Denom::Mel, tok);
+    h.w.names.reg_poolkey(key);
+    let liq = key.liq_token_denom();
+    let seal_next = |h: &mut Hist, u: &str| -> Option<String> {
+        let s = h.op_seal(u, None)?;
+        h.op_next(&s)
+    };
+    let Some(u2) = seal_next(h, &u) else { return };
+    u = u2;
+    let height = h.parts(&u).height;
+    let fcoin = |i: u8, denom: Denom, v: u128| WCoin {
+        id: f.output_coinid(i),
+        cdh: CoinDataHeight { coin_data: crate::txgen::out(a0, v, denom), height: BlockHeight(height.0 - 1) },
+        spec: CovSpec::StdNew(0),
+    };
+    let idx = |d: Denom, second: bool| (if d == Denom::Mel { 0u8 } else { 2u8 }) + second as u8;
+    let (l, rr) = (key.left(), key.right());
+    // deposit (base, base)
+    let d1 = assemble(&h.wallet, TxKind::LiqDeposit, &[fcoin(idx(l, false), l, base), fcoin(idx(rr, false), rr, base)],
+        vec![crate::txgen::out(a0, base, l), crate::txgen::out(a0, base, rr)], 0, key.to_bytes().to_vec());
+    h.w.names.reg_tx(&d1);
+    let Some(u3) = h.op_batch(&u, &[d1.clone()], "dust:deposit") else { return };
+    let Some(u4) = seal_next(h, &u3) else { return };
+    u = u4;
+    // a large swap from one side makes the other side thin
+    let from = if r.chance(1, 2) { l } else { rr };
+    let sw = if from == Denom::Mel {
+        assemble(&h.wallet, TxKind::Swap, &[fcoin(idx(from, true), from, swap_in)], vec![crate::txgen::out(a0, swap_in, from)], 0, key.to_bytes().to_vec())
+    } else {
+        assemble(&h.wallet, TxKind::Swap, &[fcoin(idx(from, true), from, swap_in), fcoin(4, Denom::Mel, 3)], vec![crate::txgen::out(a0, swap_in, from)], 3, key.to_bytes().to_vec())
+    };
+    h.w.names.reg_tx(&sw);
+    // the depositor splits the liquidity tokens: 1, 1, 2, rest
+    let cm = CoinMapping::new(h.parts(&u).coins.clone());
+    let Some(lc) = cm.get_coin(d1.output_coinid(0)) else { return };
+    if lc.coin_data.denom != liq || lc.coin_data.value.0 < 8 {
+        return;
+    }
+    let total = lc.coin_data.value.0;
+    let parts = [1u128, 1, 2, total - 4];
+    let split = assemble(&h.wallet, TxKind::Normal, &[WCoin { id: d1.output_coinid(0), cdh: lc.clone(), spec: CovSpec::StdNew(0) }, fcoin(5, Denom::Mel, 3)],
+        parts.iter().map(|v| crate::txgen::out(a0, *v, liq)).collect(), 3, vec![]);
+    h.w.names.reg_tx(&split);
+    let Some(u5a) = h.op_batch(&u, &[sw.clone()], "dust:swap") else { return };
+    let Some(u5) = h.op_batch(&u5a, &[split.clone()], "dust:split") else { return };
+    let Some(u6) = seal_next(h, &u5) else { return };
+    u = u6;
+    let hsplit = BlockHeight(h.parts(&u).height.0 - 1);
+    let wd = |h: &mut Hist, i: u8, v: u128| {
+        let ins = vec![fcoin(6 + i, Denom::Mel, 3), WCoin { id: split.output_coinid(i), cdh: CoinDataHeight { coin_data: crate::txgen::out(a0, v, liq), height: hsplit }, spec: CovSpec::StdNew(0) }];
+        let t = assemble(&h.wallet, TxKind::LiqWithdraw, &ins, vec![crate::txgen::out(a0, v, liq)], 3, key.to_bytes().to_vec());
+        h.w.names.reg_tx(&t);
+        t
+    };
+    // dust first: two requests of 1 in one batch, then the request of 2 in a batch of its own, same block
+    let (w0, w1, w2) = (wd(h, 0, 1), wd(h, 1, 1), wd(h, 2, 2));
+    let Some(u7) = h.op_batch(&u, &[w0, w1], "dust:withdraw-1-1") else { return };
+    let Some(u8) = h.op_batch(&u7, &[w2], "dust:withdraw-2") else { return };
+    let Some(u9) = seal_next(h, &u8) else { return };
+    // the rest a block later
+    let w3 = wd(h, 3, total - 4);
+    if let Some(u10) = h.op_batch(&u9, &[w3], "dust:withdraw-rest") {
+        if let Some(u11) = seal_next(h, &u10) {
+            let _ = seal_next(h, &u11);
+        }
+    }
+    h.bump("history:dust-withdrawal-script");
 }
 
 /// A scripted history across the TIP-902 activation: before it the ERG/SYM pool is an ordinary pool; a user opens it,
@@ -1843,6 +1952,10 @@ pub fn history(r: &mut Rng, w: &mut World, out: &mut Out, em: &Emphasis, stats: 
 fn history_body(h: &mut Hist, r: &mut Rng, em: &Emphasis) {
     if em.pool_ops >= 10 && r.chance(1, 16) {
         script_liquidity_ceiling(h, r);
+        return;
+    }
+    if em.pool_ops >= 10 && r.chance(1, 16) {
+        script_dust_withdrawal(h, r);
         return;
     }
     if em.tip_edges > 0 && r.chance(1, 20) {
